@@ -1,4 +1,5 @@
 import MdIt.InlineLeaf
+import MdIt.InlineLink
 import MdIt.Drv.Inline
 /-! Driver: `inlinex <maxNesting> <rules> <fragjoin> <textjoin> <html> <entities> <reformat> <normtext> <src>` — as `inline`, with the
 rules `a` (autolink) `h` (html_inline) `y` (entity); the three tables are `key=value,…` pairs (`~` = empty) of what the harness
@@ -66,6 +67,37 @@ def rxLine (toks : List String) : String :=
     | some r =>
       if mode == "m" then (match r.matchLen (decChars s) with | some n => toString n | none => "N")
       else encBool (r.search (decChars s))
+  | _ => "bad-request"
+
+end MdIt.Drv
+
+namespace MdIt.Drv
+open MdIt.Proto
+
+/-- `inlinel <maxNesting> <rules> <fragjoin> <textjoin> <html> <entities> <reformat> <normtext> <hasrefs> <storelabels> <refhref>
+<reftitle> <normref> <src>` — as `inlinex`, with the rule `l` (link); references are keyed by the normalised label -/
+def inlineLLine (toks : List String) : String :=
+  match toks with
+  | [mn, rs, fj, tj, html, ents, refm, ntxt, hasRefs, storeLabels, refHref, refTitle, normRef, src] =>
+    let ext := mkExt (decBool html) (decPairs ents) (decPairs refm) (decPairs ntxt)
+    let hrefs := decPairs refHref
+    let titles := decPairs refTitle
+    let nrefs := decPairs normRef
+    let lx : LExt := { hasRefs := decBool hasRefs, storeLabels := decBool storeLabels
+                       normRef := fun l => (lookupC nrefs l).getD missMark
+                       refs := fun l => match lookupC hrefs l with
+                         | some h => some (h, (lookupC titles l).getD [])
+                         | none => none }
+    let has := fun (c : Char) => rs.toList.contains c
+    let m := mn.toInt!
+    let rules := if has 't' then
+        linkChain drvCls ext lx (has 'n') (has 'e') (has 'b') (has 's') (has 'm') (has 'l') (has 'a') (has 'h') (has 'y') m (m.toNat + 2)
+      else (linkChain drvCls ext lx (has 'n') (has 'e') (has 'b') (has 's') (has 'm') (has 'l') (has 'a') (has 'h') (has 'y') m (m.toNat + 2)).drop 1
+    match inlineParse rules (linkPost (has 's') (has 'm')) (decBool fj) m (decChars src) with
+    | .error e => "e:" ++ e.tag
+    | .ok ts =>
+      let ts' := if decBool tj then joinToks [] ts else ts
+      "ok " ++ " ".intercalate (encToks ts')
   | _ => "bad-request"
 
 end MdIt.Drv
